@@ -10,7 +10,7 @@
    (C05_pinned_refuted). *)
 From Common Require Import Bytes Outcome Blake2b.
 From TrieCodec Require Import Codec View Db ProofsDecode ProofsDb.
-From C05 Require Import Model ProofsSound ProofsInj ProofsGen ProofsComplete.
+From C05 Require Import Model ProofsSound ProofsInj ProofsGen ProofsComplete Examples.
 Local Open Scope N_scope.
 
 (* Completeness.  For every well-formed state trie t (either version: any mix of inline and hashed
@@ -60,28 +60,8 @@ Proof.
 Qed.
 Print Assumptions C05_sound_absent.
 
-(* ------------------------------------------------------------------ examples with the real hash *)
-Definition nib (l : list N) : list byte := map n2b l.
-Definition v33 : list byte := repeat (n2b 7) 33.
-Definition none16 : list (option tnode) := repeat None 16.
-Definition at_ (i : nat) (c : tnode) (l : list (option tnode)) : list (option tnode) :=
-  firstn i l ++ Some c :: skipn (S i) l.
-
-(* V1 state {0x1f10 -> 33 bytes}: a leaf whose value is stored by hash *)
-Definition ex_leaf : tnode := TN (nib [1; 15; 1; 0]) (Some v33) true [].
-(* V1 state {0x10 -> 33 bytes, 0x1001 -> 01}: a branch whose value is stored by hash *)
-Definition ex_branch : tnode :=
-  TN (nib [1; 0]) (Some v33) true (at_ 0 (TN (nib [1]) (Some (nib [1])) false []) none16).
-(* {0x01 -> empty, 0x02 -> 01}: an inlined leaf with an empty value *)
-Definition ex_empty : tnode :=
-  TN (nib [0]) None false
-     (at_ 1 (TN [] (Some []) false []) (at_ 2 (TN [] (Some (nib [1])) false []) none16)).
-
-Definition B := blake2b_256.
-Definition rootB (t : tnode) : list byte := B (encode B t).
-Definition gen (vfix : bool) (t : tnode) (k : list byte) : list (list byte) :=
-  match generate B vfix true (Some t) [k] with Ok l => l | _ => [] end.
-
+(* ------------------------------------------------------------------ examples with the real hash
+   (the states ex_* and their evaluation are in Examples.v) *)
 (* non-vacuity: with the repaired code the generated proofs of the three states verify, a wrong
    value and an absent key are rejected *)
 Example C05_nonvacuous :
@@ -92,7 +72,7 @@ Example C05_nonvacuous :
   /\ verify B (false, false) true true true true (gen true ex_empty (nib [1])) (rootB ex_empty) (nib [1]) [] = Ok tt
   /\ verify B (false, false) true true true true (gen true ex_leaf (nib [31; 16])) (rootB ex_leaf) (nib [31; 16]) (nib [9]) = Err R_MISMATCH
   /\ verify B (false, false) true true true true (gen true ex_leaf (nib [31; 16])) (rootB ex_leaf) (nib [31; 17]) v33 = Err R_NOTFOUND.
-Proof. repeat split; vm_compute; reflexivity. Qed.
+Proof. exact C05_nonvacuous_holds. Qed.
 
 (* the pinned tree: (1) Generate does not ship hashed values, so the real value of 0x1f10 is not
    confirmed; (2) Get returns the hash kept in a branch, so the real value of 0x10 is rejected and
@@ -110,5 +90,6 @@ Theorem C05_pinned_refuted :
      = Err R_NOTFOUND
   /\ lookup ex_empty (nibbles_of_bytes (nib [1])) = Some []
   /\ generate B false false None [[]] = Panic.
-Proof. repeat split; vm_compute; reflexivity. Qed.
+Proof. exact C05_pinned_refuted_holds. Qed.
 Print Assumptions C05_pinned_refuted.
+
